@@ -192,6 +192,8 @@ pub struct Engine {
     pub totals_prop: &'static str,
     pub known_c02_sweep: bool,
     pub end_run: bool,
+    /// kind of the previous operation (drives follow-up biases of the generator)
+    pub last_kind: &'static str,
     /// C15 pairs every run with a no-oracle twin; oracle-side faults would make the twins diverge by construction
     pub no_oracle_faults: bool,
 }
@@ -273,6 +275,7 @@ impl Engine {
         let mut w = World::new(setup, start_ns);
         w.st.native.skew_s = sw.skew;
         w.st.tx_index = sw.base_tx_index;
+        w.zero_ibc_ok = sw.zero_ibc_ok;
         let lst = format!("factory/{}/{}", w.setup.staking_addr, w.setup.subdenom);
         let cfg = MCfg {
             batch_period: sw.batch_period,
@@ -331,6 +334,7 @@ impl Engine {
             totals_prop: "C04",
             known_c02_sweep: false,
             end_run: false,
+            last_kind: "",
             no_oracle_faults: false,
         }
     }
